@@ -1,6 +1,6 @@
 (* C09 -- Subscripts and slices follow Python's rules for every bound and step.
    Only statements here; proofs live in MJ.C09.Proofs. *)
-From MJ Require Import Common.Base C09.Model C09.Spec C09.Proofs.
+From MJ Require Import Common.Base C09.Model C09.Spec C09.Proofs C09.Laws.
 
 (* Every slice of every sliceable kind, for every list (any length a Vec can have), every
    start/stop/step an integer value can hold: an error exactly for step 0, otherwise
@@ -34,6 +34,34 @@ Theorem subscript_python : forall k items key,
   model_index k items key = if in_i64 key then py_index items key else None.
 Proof. exact subscript_python_proof. Qed.
 
+(* Python's documented identities, for the model of the implementation and for every list:
+   v[:] is v, v[::-1] is v reversed (each of the result's own kind). *)
+Theorem slice_full_is_identity : forall k items, lenZ items <= i64_max ->
+  model_slice k items None None None = Ok (rkind k, items).
+Proof. exact model_slice_full. Qed.
+
+Theorem slice_minus_one_reverses : forall k items, lenZ items <= i64_max ->
+  model_slice k items None None (Some (-1)) = Ok (rkind k, rev items).
+Proof. exact model_slice_rev. Qed.
+
+(* A slice never invents or duplicates-beyond-length: whatever it returns has the kind rule's kind,
+   consists of elements of the input, and is no longer than the input. *)
+Theorem slice_selects_from_input : forall k items start stop step r,
+  lenZ items <= i64_max -> valid_opt start -> valid_opt stop -> valid_opt step ->
+  model_slice k items start stop step = Ok r ->
+  fst r = rkind k /\ incl (snd r) items /\ lenZ (snd r) <= lenZ items.
+Proof. exact model_slice_selects. Qed.
+
+(* the specification itself obeys the same laws (a mis-transcribed py_bound / py_count breaks these) *)
+Theorem py_slice_laws : forall l,
+  py_slice l None None 1 = l /\ py_slice l None None (-1) = rev l /\
+  (forall start stop step, step <> 0 ->
+     incl (py_slice l start stop step) l /\ lenZ (py_slice l start stop step) <= lenZ l).
+Proof.
+  intros l. split; [apply py_slice_full|]. split; [apply py_slice_rev|].
+  intros start stop step Hs. split; [apply py_slice_incl; exact Hs|apply py_slice_length_le; exact Hs].
+Qed.
+
 (* non-vacuity: a concrete non-trivial instance meets the hypotheses *)
 Example slice_python_witness :
   model_slice KSeq [0;1;2] (Some 3) (Some 0) (Some (-1)) = Ok (3, [2;1]) /\
@@ -45,3 +73,7 @@ Print Assumptions slice_python.
 Print Assumptions slice_total.
 Print Assumptions slice_no_overflow.
 Print Assumptions subscript_python.
+Print Assumptions slice_full_is_identity.
+Print Assumptions slice_minus_one_reverses.
+Print Assumptions slice_selects_from_input.
+Print Assumptions py_slice_laws.
